@@ -7,7 +7,7 @@
 (* which cmd/vreplay runs through every evaluation path of the engine.     *)
 (* Mode selects the slice of the case space (one TLC process per slice).   *)
 (***************************************************************************)
-EXTENDS Query, Json
+EXTENDS Query, Json, QueryRand
 
 CONSTANTS Mode
 
@@ -64,7 +64,8 @@ D3 == [ name |-> "D3",
 \* D0: the empty store
 D0 == [name |-> "D0", names |-> << >>, row |-> << >>, pl |-> NoPlaces({})]
 
-Datasets == IF Mode = "mix" THEN {D1, D0} ELSE IF Mode = "page" THEN {D1, D2, D3} ELSE IF Mode \in {"datasets", "bool"} THEN {D1, D2, D3, D0} ELSE {D1, D2}
+Datasets == (IF Mode = "mix" THEN {D1, D0} ELSE IF Mode = "page" THEN {D1, D2, D3} ELSE IF Mode \in {"datasets", "bool"} THEN {D1, D2, D3, D0} ELSE {D1, D2})
+            \cup (IF Mode \in {"datasets", "scalar", "set", "bool", "subq", "page"} THEN RandDatasets ELSE {})
 
 \* ---- literal pools
 StrLits == {S(sA), S(sAB), S(sUA), S(sE), S(sB), S(s1), S(s10), S(s1p5), S(sBB), S(sQ), S(sBS), S(sAspB)}
@@ -142,7 +143,11 @@ B3 == {[k |-> c, l |-> x, r |-> y] : c \in {"and", "or"}, x \in {A1, A3, [k |-> 
 BoolQ == {Q(p) : p \in B1 \cup B2 \cup B3 \cup {[k |-> "not", e |-> x] : x \in {z \in B2 : z.l = A1}}}
 
 \* sub-queries
-SubPreds == {TRUEF, A1, A2, [k |-> "atom", sym |-> <<"boss">>, a |-> IsNull(TRUE)], [k |-> "anyOf", sym |-> <<"roles">>, a |-> Cmp("eq", S(sB))]}
+SubPreds == {TRUEF, A1, A2, [k |-> "atom", sym |-> <<"boss">>, a |-> IsNull(TRUE)], [k |-> "anyOf", sym |-> <<"roles">>, a |-> Cmp("eq", S(sB))],
+             \* the same set symbol at two nesting levels (the inner evaluation runs while the outer iteration is under way)
+             [k |-> "not", e |-> [k |-> "isEmpty", sym |-> <<"peers">>]],
+             [k |-> "not", e |-> [k |-> "isEmptyq", sym |-> <<"peers">>, q |-> Q(A2)]],
+             [k |-> "countq", sym |-> <<"peers">>, q |-> Q(TRUEF), op |-> "gt", n |-> N(1)]}
 SubQs == {[p |-> p, sort |-> << >>, skip |-> sk, limit |-> li] : p \in SubPreds, sk \in {NoVal, 1}, li \in {NoVal, 1}}
 PlacePreds == {TRUEF, A1, [k |-> "atom", sym |-> <<"s">>, a |-> IsNull(FALSE)], [k |-> "atom", sym |-> <<"id">>, a |-> Cmp("ne", S(s1))],
                [k |-> "not", e |-> [k |-> "atom", sym |-> <<"s">>, a |-> Cmp("eq", S(sB))]]}
